@@ -262,14 +262,14 @@ type verifFakeCConn struct {
 	discarded int
 }
 
-func (f *verifFakeCConn) Peek(n int) ([]byte, error)    { return f.buf, nil }
-func (f *verifFakeCConn) Discard(n int) (int, error)    { f.discarded += n; return n, nil }
-func (f *verifFakeCConn) Fd() int                       { return 0 }
-func (f *verifFakeCConn) EnqueueInMsg(_ *Msg)           {}
-func (f *verifFakeCConn) RemoteAddr() string            { return "" }
-func (f *verifFakeCConn) LocalAddr() string             { return "" }
-func (f *verifFakeCConn) IsOpened() bool                { return true }
-func (f *verifFakeCConn) Write(p []byte) (int, error)   { return len(p), nil }
+func (f *verifFakeCConn) Peek(n int) ([]byte, error)     { return f.buf, nil }
+func (f *verifFakeCConn) Discard(n int) (int, error)     { f.discarded += n; return n, nil }
+func (f *verifFakeCConn) Fd() int                        { return 0 }
+func (f *verifFakeCConn) EnqueueInMsg(_ *Msg)            {}
+func (f *verifFakeCConn) RemoteAddr() string             { return "" }
+func (f *verifFakeCConn) LocalAddr() string              { return "" }
+func (f *verifFakeCConn) IsOpened() bool                 { return true }
+func (f *verifFakeCConn) Write(p []byte) (int, error)    { return len(p), nil }
 func (f *verifFakeCConn) Writev(b [][]byte) (int, error) { return 0, nil }
 
 type VerifDecodeResult struct {
